@@ -13,6 +13,6 @@ CONSTANTS
   Active = {"r2"}
   Bin = FALSE
   Acts = {"write", "read", "delete", "seek", "tell", "refresh"}
-  Defects = {"overwrite", "refresh_skip"}
+  Defects = {"overwrite", "refresh_skip", "frac_ts"}
 VIEW view
 ACTION_CONSTRAINT Emit
